@@ -54,7 +54,7 @@ def make_plugin(kind, hooks, idx, log, raise_at=None, exc="Boom"):
                             pass
                         root = context.reply.root() if hasattr(context.reply, "root") else context.reply
                         for n in root.branch():
-                            if n.name == "r" and n.text is not None:
+                            if n.name in ("r", "faultstring") and n.text is not None:
                                 n.setText(str(n.text) + "+p%d" % idx)
                 elif hook == "unmarshalled":
                     context.reply = "%s+u%d" % (context.reply, idx)
@@ -136,7 +136,8 @@ def run(ctx):
                     if "BOOM " in str(e):
                         outcome = ("boom", str(e).strip("'").replace("BOOM ", ""), type(e).__name__)
                     else:
-                        outcome = ("exc", type(e).__name__)
+                        outcome = ("exc", type(e).__name__,
+                                   str(getattr(getattr(e, "fault", None), "faultstring", None)))
             except Exception as e:
                 if "BOOM " not in str(e):
                     raise
@@ -210,6 +211,19 @@ def run(ctx):
                     r = r[1] if isinstance(r, tuple) and r[0] == 200 else ("bad-pair", r)
                 if str(r) != val:
                     ctx.fail("returned value does not reflect the hook edits in stage order", meta, str(r), val)
+        # a fault reply is decoded from the tree the parsed hooks left
+        if meta["body"] == "fault11" and not meta["nosend"] and not meta["retxml"] and outcome[0] in ("exc", "ret"):
+            base = "boom" if meta["status"] == 500 else None
+            fs = None
+            if outcome[0] == "exc" and outcome[1] == "WebFault":
+                fs = outcome[2]
+            elif outcome[0] == "ret" and isinstance(outcome[1], tuple) and len(outcome[1]) == 2:
+                fs = str(getattr(outcome[1][1], "faultstring", None))
+            if fs is not None and fs != "None":
+                edits = "".join("+p%d" % i for i in msg("parsed"))
+                if not fs.endswith(edits) or fs.count("+p") != len(msg("parsed")):
+                    ctx.fail("the fault handed to the caller is not decoded from the tree the parsed hooks left", meta,
+                             fs, "<faultstring>" + edits)
     # document hooks over a two-document load and a warm document cache
     doc_checks(ctx)
     ctx.sample(metas[min(50, len(metas) - 1)])
@@ -237,6 +251,33 @@ def doc_checks(ctx):
         ctx.case(("doc", order), True)
         if log != exp:
             ctx.fail("document hooks: not once per fetched/opened document in order", {"order": order}, log, exp)
+    # a document plugin registered after an ImportDoctor still gets the document root and its edits reach the loader
+    import suds.xsd.doctor
+    import suds.plugin
+
+    class Renamer(suds.plugin.DocumentPlugin):
+        def __init__(self):
+            self.roots = []
+
+        def parsed(self, context):
+            self.roots.append(context.document.name)
+            for n in context.document.branch():
+                if n.name == "element" and n.get("name") == "f":
+                    n.set("name", "g")
+
+    doctor = suds.xsd.doctor.ImportDoctor(suds.xsd.doctor.Import("urn:nowhere"))
+    ren = Renamer()
+    ctx.case(("doc", "doctor-then-plugin"), True)
+    try:
+        c = wsdlkit.client(w.replace(b'element="x:f"', b'element="x:g"'), extra_docs={"inc.xsd": inc},
+                           plugins=[doctor, ren])
+        seen_roots = ren.roots
+    except Exception as e:
+        seen_roots = "%s: %s" % (type(e).__name__, e)
+    if seen_roots != ["definitions", "schema"]:
+        ctx.fail("a document plugin registered after the ImportDoctor does not get each opened document's root "
+                 "(or its edit did not reach the loader)", {"order": ["ImportDoctor", "DocumentPlugin"]}, seen_roots,
+                 ["definitions", "schema"])
     # warm document cache: parsed fires per opened document, loaded does not (nothing is fetched)
     d = tempfile.mkdtemp(prefix="verif-c16-")
     try:
